@@ -548,6 +548,8 @@ func c04R4(c *Ctx, rule string) {
 		})
 	}
 	c.Check(guard, rule, "buffer-size guard dominates all slicing of and stores into buf", c.atFn(enc), "len(buf) < usefulLen ⇒ error, before any write", "the encoder writes into buf before (or without) checking that it is large enough")
+	// the per-frame maximum is the on-wire limit minus exactly that overhead
+	checkMaxUnit(c, rule)
 	// call sites: payload length <= maxStreamUnitWrite
 	maxF := p.Field("internal/multiplex", "Session", "maxStreamUnitWrite")
 	isMax := func(v ssa.Value) bool { fv, _ := loadedField(stripConv(v)); return fv == maxF }
